@@ -25,7 +25,11 @@ Configs ==
     [name |-> "short_after",     global |-> "S2", rotated |-> <<"S1", "SHORT">>, hash |-> "default"],
     [name |-> "short_global",    global |-> "SHORT", rotated |-> <<"S1">>,       hash |-> "default"],
     [name |-> "prefix_32_equal", global |-> "S1x",   rotated |-> <<>>,           hash |-> "default"],   \* differs from S1 only after byte 32
-    [name |-> "other_hash",      global |-> "S1", rotated |-> <<>>,              hash |-> "sha256"] }
+    [name |-> "other_hash",      global |-> "S1", rotated |-> <<>>,              hash |-> "sha256"],
+    \* no current secret at all, only rotated ones (an empty global secret is skipped, not used as a key)
+    [name |-> "rotated_only",           global |-> "", rotated |-> <<"S1">>,        hash |-> "default"],
+    [name |-> "rotated_only_last",      global |-> "", rotated |-> <<"S3", "S1">>,  hash |-> "default"],
+    [name |-> "rotated_only_forgotten", global |-> "", rotated |-> <<"S3">>,        hash |-> "default"] }
 
 Mutations ==
   { "identity", "key_bitflip", "mac_bitflip", "key_truncate", "key_extend", "mac_truncate", "mac_extend",
@@ -41,14 +45,18 @@ Authenticates(keys, i, hash) ==
   ELSE IF keys[i] \in {"S1", "S1x"} /\ hash = "default" THEN TRUE           \* the signing key is the first 32 bytes of the secret
   ELSE Authenticates(keys, i + 1, hash)
 
-Accept(mut, cfg) == mut = "identity" /\ Authenticates(<<cfg.global>> \o cfg.rotated, 1, cfg.hash)
+KeysOf(cfg) == (IF cfg.global = "" THEN <<>> ELSE <<cfg.global>>) \o cfg.rotated
+Accept(mut, cfg) == mut = "identity" /\ Authenticates(KeysOf(cfg), 1, cfg.hash)
 
 (* the lifetime configuration must not matter: with unlimited refresh tokens (no expiry in the
    session) and with session-less expiry (requested_at + lifetime) the same checks apply *)
 Lifetimes == {"finite", "unlimited_refresh"}
-Rows == { [kind |-> k, mut |-> m, cfg |-> c, life |-> l, accept |-> Accept(m, c), undet |-> FALSE] :
+(* the endpoint that consumes a code, a refresh token or a device code also has to MINT, which needs a current
+   secret; introspection of an access token does not *)
+Endpoint(k, m, c) == Accept(m, c) /\ (k = "at" \/ c.global # "")
+Rows == { [kind |-> k, mut |-> m, cfg |-> c, life |-> l, accept |-> Accept(m, c), endpoint |-> Endpoint(k, m, c), undet |-> FALSE] :
             k \in Kinds, m \in Mutations, c \in Configs, l \in Lifetimes }
-        \cup { [kind |-> k, mut |-> m, cfg |-> c, life |-> "finite", accept |-> FALSE, undet |-> TRUE] :
+        \cup { [kind |-> k, mut |-> m, cfg |-> c, life |-> "finite", accept |-> FALSE, endpoint |-> FALSE, undet |-> TRUE] :
             k \in Kinds, m \in PrefixMutations, c \in {x \in Configs : x.name = "same"} }
 
 (* JWT access tokens: only an untouched token signed by the configured key with its asymmetric algorithm *)
@@ -57,8 +65,9 @@ JwtMutations == { "identity", "alg_none", "alg_none_signature_kept", "hs256_with
                   "expired_claim_edited", "garbage" }
 JwtRows == { [kind |-> "jwt", mut |-> m, accept |-> m = "identity"] : m \in JwtMutations }
 
-ASSUME \A c \in Configs : Accept("identity", c) <=> c.name \in {"same", "rotated_1", "rotated_last", "rotated_first", "short_after", "prefix_32_equal"}
+ASSUME \A c \in Configs : Accept("identity", c) <=> c.name \in {"same", "rotated_1", "rotated_last", "rotated_first", "short_after", "prefix_32_equal", "rotated_only", "rotated_only_last"}
 ASSUME \A r \in Rows : r.mut # "identity" => ~r.accept
+ASSUME \A r \in Rows : r.endpoint => r.accept
 ASSUME PrintT(<<"ROWS", Cardinality(Rows), Cardinality(JwtRows)>>)
 ASSUME JsonSerialize(IOEnv.VERIF_TABLE_HMAC, SetToSeq(Rows))
 ASSUME JsonSerialize(IOEnv.VERIF_TABLE_JWT, SetToSeq(JwtRows))
